@@ -447,6 +447,9 @@ CASES = [
     ("first-and-last", "local   a = 1\nlocal b = 2\nlocal   c = 3", []),
     ("no-final-newline", "local a = 1\nlocal b = 2", []),
     ("crlf", "local   a = 1\r\nlocal b = 2\r\n", []),
+    ("crlf-to-crlf", "local   a = 1\r\nlocal b = 2\r\nlocal   c = 3\r\n", ["--line-endings", "Windows"]),
+    ("lf-to-crlf", "local   a = 1\nlocal b = 2\n", ["--line-endings", "Windows"]),
+    ("crlf-to-lf", "local   a = 1\r\nlocal b = 2\r\n", ["--line-endings", "Unix"]),
     ("already-formatted", "local a = 1\n", []),
     ("moved-block-2", R("e") + R("f") + R("g") + R("a") + R("b") + R("c"), ["--sort-requires"]),
 ]
@@ -494,8 +497,9 @@ def battery():
     for name, src, flags in CASES:
         w = clireplay.run_cli(binp, {"f.lua": src}, flags + ["f.lua"])
         formatted = w["after"]["f.lua"][0].decode()
+        okfile = clireplay.FORMATTED.replace("\n", "\r\n") if "Windows" in flags else clireplay.FORMATTED      # already formatted under these flags
         for fmt in ("unified", "standard", "summary"):
-            r = clireplay.run_cli(binp, {"f.lua": src, "ok.lua": clireplay.FORMATTED}, ["--check", "--output-format", fmt] + flags + ["f.lua", "ok.lua"])
+            r = clireplay.run_cli(binp, {"f.lua": src, "ok.lua": okfile}, ["--check", "--output-format", fmt] + flags + ["f.lua", "ok.lua"])
             rec = {"source": src, "flags": flags, "format": fmt, "stdout": r["out"][:1500], "formatted": formatted}
             K = {("wiring", fmt.capitalize()), "any"}
             if (r["rc"] == 0) != (formatted == src):
